@@ -94,8 +94,10 @@ def kani_part(prop, tier, only, scratch_tag):
             n_other_ok = sum(1 for k in ("repo-safety", "tool", "unwind") for c in groups.get(k, [])
                              if c["status"].upper() == "SUCCESS")
             for cid, cs in sorted(by_id.items()):
+                if re.match(r"C\d\d", cid) and prop not in kani.clause_props(cid):
+                    continue  # clause of another property served by the same harness
                 sts = set(c["status"].upper() for c in cs)
-                if sts <= {"SUCCESS"}:
+                if sts <= {"SUCCESS", "UNREACHABLE"} and "SUCCESS" in sts:
                     st = "discharged"
                 elif "FAILURE" in sts:
                     st = "failed"
